@@ -259,6 +259,11 @@ func buildC20Configs() []c20cfg {
 		}
 		for _, op := range []spec.TestOp{spec.TAfter, spec.TBefore, spec.TEQ} {
 			out = append(out, c20cfg{kind: spec.Time, test: spec.Test{Op: op, Arg: p}, subjects: subj, name: fmt.Sprintf("Time.%s(base in zone %d)", op, zi)})
+			if zi == 0 {
+				// the zero instant is a bound like any other (also when it is carried in a zone)
+				out = append(out, c20cfg{kind: spec.Time, test: spec.Test{Op: op, Arg: time.Time{}}, subjects: subj, name: fmt.Sprintf("Time.%s(zero time)", op)},
+					c20cfg{kind: spec.Time, test: spec.Test{Op: op, Arg: time.Time{}.In(zones[1])}, subjects: subj, name: fmt.Sprintf("Time.%s(zero instant in a zone)", op)})
+			}
 		}
 	}
 	// slices: lengths
@@ -505,6 +510,33 @@ func c20Regexps(c *core.Ctx) bool {
 	if fmt.Sprint(opts) != "[o0 o1 o2 o3 o4 o5 o6 o7 o8 o9 o10 o11 o12]" {
 		c.Violation("test-decides-another-predicate|OneOf-list-edited-by-the-library", map[string]any{"callers_list_now": fmt.Sprint(opts)})
 		return false
+	}
+	// Contains on a list of pointers is membership by deep equality of the items - pointers - with the value given
+	a, b := "a", "b"
+	var nilS *string
+	for _, needle := range []any{"b", &b, nilS, nil, 1} {
+		for _, mode := range []string{"Parse", "Validate"} {
+			items := []*string{&a, &b}
+			want := false
+			for _, it := range items {
+				if reflect.DeepEqual(it, needle) {
+					want = true
+				}
+			}
+			sch := z.Slice(z.Ptr(z.String())).Contains(needle)
+			var m z.ZogIssueMap
+			if mode == "Parse" {
+				var d []*string
+				m = sch.Parse([]any{"a", "b"}, &d)
+			} else {
+				m = sch.Validate(&items)
+			}
+			c.Eval(1)
+			if (len(m) == 0) != want {
+				c.Violation("test-decides-another-predicate|Slice(Ptr).Contains", map[string]any{"schema": "Slice(Ptr(String())).Contains(needle)", "items": "[&\"a\", &\"b\"]", "needle": fmt.Sprintf("%#v", needle), "mode": mode, "deeply_equal_to_an_item": want, "issues": len(m)})
+				return false
+			}
+		}
 	}
 	c.Count("regexp_and_enum_scenarios", 1)
 	return true
